@@ -27,38 +27,38 @@ type Violation struct {
 }
 
 type Part struct {
-	Property    string           `json:"property"`
-	Tier        string           `json:"tier"`
-	Seed        int64            `json:"seed"`
-	Child       int              `json:"child"`
-	Level       string           `json:"level"`
-	Rule        string           `json:"rule"`
-	Evaluations int64            `json:"evaluations"`
-	Cells       map[string]int64 `json:"cells"`
-	Required    []string         `json:"required_cells"`
-	Counters    map[string]int64 `json:"counters"`
+	Property    string             `json:"property"`
+	Tier        string             `json:"tier"`
+	Seed        int64              `json:"seed"`
+	Child       int                `json:"child"`
+	Level       string             `json:"level"`
+	Rule        string             `json:"rule"`
+	Evaluations int64              `json:"evaluations"`
+	Cells       map[string]int64   `json:"cells"`
+	Required    []string           `json:"required_cells"`
+	Counters    map[string]int64   `json:"counters"`
 	Maxima      map[string]float64 `json:"maxima"`
-	Samples     []any            `json:"samples"`
-	Violations  []Violation      `json:"violations"`
-	Assumptions []string         `json:"assumptions"`
-	Notes       []string         `json:"notes"`
-	Exhaustive  bool             `json:"exhaustive,omitempty"`
-	WallS       float64          `json:"wall_s"`
-	Done        bool             `json:"done"`
+	Samples     []any              `json:"samples"`
+	Violations  []Violation        `json:"violations"`
+	Assumptions []string           `json:"assumptions"`
+	Notes       []string           `json:"notes"`
+	Exhaustive  bool               `json:"exhaustive,omitempty"`
+	WallS       float64            `json:"wall_s"`
+	Done        bool               `json:"done"`
 }
 
 // Run is the per-process recorder.
 type Run struct {
-	mu      sync.Mutex
-	p       Part
-	start   time.Time
-	outDir  string
-	journal *os.File
-	nViol   int
+	mu         sync.Mutex
+	p          Part
+	start      time.Time
+	outDir     string
+	journal    *os.File
+	nViol      int
 	maxSamples int
-	only    string // VERIF_CASE: run only this case id
-	completed bool
-	t       *testing.T
+	only       string // VERIF_CASE: run only this case id
+	completed  bool
+	t          *testing.T
 }
 
 func envInt(name string, def int64) int64 {
@@ -81,11 +81,11 @@ func NewRun(t *testing.T, property, level, rule string) *Run {
 		out = filepath.Join(os.TempDir(), "verif-out")
 	}
 	r := &Run{
-		start:  time.Now(),
-		outDir: out,
+		start:      time.Now(),
+		outDir:     out,
 		maxSamples: 6,
-		only:   os.Getenv("VERIF_CASE"),
-		t:      t,
+		only:       os.Getenv("VERIF_CASE"),
+		t:          t,
 	}
 	r.p = Part{
 		Property: property, Tier: tier, Seed: envInt("VERIF_SEED", 1),
@@ -100,11 +100,11 @@ func NewRun(t *testing.T, property, level, rule string) *Run {
 	return r
 }
 
-func (r *Run) Tier() string    { return r.p.Tier }
-func (r *Run) Thorough() bool  { return r.p.Tier == "thorough" }
-func (r *Run) Seed() int64     { return r.p.Seed }
-func (r *Run) Child() int      { return r.p.Child }
-func (r *Run) Children() int   { return int(envInt("VERIF_CHILDREN", 1)) }
+func (r *Run) Tier() string   { return r.p.Tier }
+func (r *Run) Thorough() bool { return r.p.Tier == "thorough" }
+func (r *Run) Seed() int64    { return r.p.Seed }
+func (r *Run) Child() int     { return r.p.Child }
+func (r *Run) Children() int  { return int(envInt("VERIF_CHILDREN", 1)) }
 
 // Pick returns q in the quick tier and th in the thorough tier.
 func (r *Run) Pick(q, th int) int {
@@ -295,11 +295,11 @@ func (r *Run) Complete() {
 // mutex for minutes are a deadlock (violation), anything else is inconclusive.
 
 var (
-	hbMu     sync.Mutex
-	hbCount  int64 // bumped by Heartbeat (called on the fake clock inside bubbles, so no timestamps here)
-	hbRun    *Run
-	hbCase   string
-	hbOnce   sync.Once
+	hbMu    sync.Mutex
+	hbCount int64 // bumped by Heartbeat (called on the fake clock inside bubbles, so no timestamps here)
+	hbRun   *Run
+	hbCase  string
+	hbOnce  sync.Once
 )
 
 const stallAfter = 90 * time.Second
